@@ -1,18 +1,11 @@
 (* Glue between interchange values and the model: one named entry per operation.  Kept in Coq so that
    the OCaml driver stays a dumb parser/printer. *)
 From Coq Require Import NArith List Bool String.
-From DBG Require Import Interop.Val Spec.Dna Packed.KmerModel Algo.KmerHist.
+From DBG Require Import Interop.Val Spec.Dna Packed.KmerModel Algo.KmerHist Interop.DispatchExts.
 Import ListNotations.
 Open Scope N_scope.
 
 Definition cfg_of (w k : N) : kcfg := mkc (N.to_nat w) (N.to_nat k).
-Definition handler := list val -> option val.
-Fixpoint lookup (op : string) (tbl : list (string * handler)) : option handler :=
-  match tbl with
-  | [] => None
-  | (n, h) :: r => if String.eqb op n then Some h else lookup op r
-  end.
-
 (* histories: init ( 0 ) | ( 1 v ) | ( 2 bytes ) | ( 3 ascii ); op ( 0 b ) ExtL | ( 1 b ) ExtR | ( 2 ) Rc |
    ( 3 pos b ) Set | ( 4 pos n v ) SetSlice | ( 5 ) MinRc *)
 Definition v_kinit (v : val) : option kinit :=
@@ -111,9 +104,19 @@ Definition d_spec_kmer (op : string) (v : val) : option val :=
   | _ => None
   end.
 
+(* container-independent specification ops *)
+Definition generic_spec_ops : list (string * handler) :=
+  [ ("s.rc"%string, fun a => match a with [VL l] => match vlistN l with Some d => Some (ofNs (rc d)) | None => None end | _ => None end);
+    ("s.kmers_of_rc"%string, fun a => match a with [VN k; VL l] => match vlistN l with
+        | Some d => Some (VL (map ofNs (kmers (N.to_nat k) (rc d)))) | None => None end | _ => None end);
+    ("s.kmers"%string, fun a => match a with [VN k; VL l] => match vlistN l with
+        | Some d => Some (VL (map ofNs (kmers (N.to_nat k) d))) | None => None end | _ => None end)
+  ].
+
 Definition prefix2 (op : string) : string := substring 0 2 op.
 
 Definition dispatch (op : string) (v : val) : option val :=
   if String.eqb (prefix2 op) "k." then d_kmer op v
   else if String.eqb (substring 0 4 op) "s.k." then d_spec_kmer op v
-  else None.
+  else if String.eqb (prefix2 op) "e." || String.eqb (substring 0 4 op) "s.e." then d_exts op v
+  else match run_table generic_spec_ops op v with Some r => Some r | None => None end.
